@@ -218,15 +218,15 @@ var unsafeFile = regexp.MustCompile(`[^A-Za-z0-9._-]+`)
 
 // Coverage is what the check measured.
 type Coverage struct {
-	States       int64
-	Transitions  int64
-	Evaluations  int64
-	Nontrivial   int64
-	TracesImpl   int64
-	Rule         string
-	Exhaustive   bool
-	Extra        map[string]any
-	Explanation  string
+	States      int64
+	Transitions int64
+	Evaluations int64
+	Nontrivial  int64
+	TracesImpl  int64
+	Rule        string
+	Exhaustive  bool
+	Extra       map[string]any
+	Explanation string
 }
 
 // Finish writes evidence, prints verdict lines and returns the exit code.
